@@ -13,6 +13,9 @@ type propFilter struct {
 	// ExcludeLabels: keep everything except obligations of clauses with these labels
 	// (clauses of a shared function that belong to another property's statement)
 	ExcludeLabels []string `json:"exclude_labels"`
+	// FuncLabels: for functions whose name contains the key, keep only the obligations of the
+	// clauses with these labels (a shared function of which only one clause states this property)
+	FuncLabels map[string][]string `json:"func_labels"`
 }
 
 // applyPropFilter drops, for properties listed in prop_filters.json, the obligations that do
@@ -47,6 +50,16 @@ func applyPropFilter(prop string, results []*FuncResult) {
 			for _, l := range pf.ExcludeLabels {
 				if strings.Contains(o.Name, "["+l+"]") {
 					ok = false
+				}
+			}
+			for fn, labels := range pf.FuncLabels {
+				if strings.Contains(r.Name, fn) {
+					ok = false
+					for _, l := range labels {
+						if strings.Contains(o.Name, "["+l+"]") {
+							ok = true
+						}
+					}
 				}
 			}
 			if ok {
